@@ -6,9 +6,17 @@ rm -rf /var/tmp/evidence.keep.$$; cp -a /verif/evidence /var/tmp/evidence.keep.$
 IDS="$*"; [ -z "$IDS" ] && IDS=$(ls -d seeded/*/ | xargs -n1 basename)
 for ID in $IDS; do
   P=$(python3 -c "import json;print(json.load(open('seeded/$ID/meta.json'))['breaks_property'])")
+  # the checks to try, in order: the property's own, then the others that were run when the seed was kept (a change may be caught
+  # by the check of another property it also breaks)
+  PS=$(python3 -c "import json;m=json.load(open('seeded/$ID/meta.json'));print(' '.join([m['breaks_property']]+[c for c in m.get('checks_run',[]) if c!=m['breaks_property']]))")
   if ! git -C /repo apply /verif/seeded/$ID/patch.diff 2>/dev/null; then echo "$ID $P PATCH-DOES-NOT-APPLY"; continue; fi
-  OUT=$(./check $P --tier quick 2>&1); RC=$?
-  git -C /repo checkout -- .
+  for Q in $PS; do
+    OUT=$(./check $Q --tier quick 2>&1); RC=$?
+    if [ $(echo "$OUT" | grep "^VIOLATION" | grep -vc "no-failing-input-found") -gt 0 ]; then [ $Q != $P ] && P="$P(by-$Q)"; break; fi
+    [ $Q = $P ] && { OUT0="$OUT"; RC0=$RC; }
+  done
+  if [ $(echo "$OUT" | grep "^VIOLATION" | grep -vc "no-failing-input-found") -eq 0 ]; then OUT="$OUT0"; RC=$RC0; fi
+  git -C /repo apply -R /verif/seeded/$ID/patch.diff 2>/dev/null; git -C /repo checkout -- .
   N=$(echo "$OUT" | grep -c "^VIOLATION")
   NF=$(echo "$OUT" | grep "^VIOLATION" | grep -c "no-failing-input-found")
   if [ $RC -eq 0 ] || [ $N -eq 0 ]; then echo "$ID $P MISSED (exit $RC)";
